@@ -147,7 +147,7 @@ def r3_charge_not_skipped(ctx):
             ok = len(ups) == 1 and ups[0].kind == "+=" and U(ups[0].key) == iv
             if ok:
                 c, p = monomial(ups[0].value, atom=lambda n: U(n))
-                ok = c == 1 and set(p) == {"%s.composition.get(%s, 0)" % (sv, kv), cv}
+                ok = c == 1 and set(p) == {"%s.composition.get(%s, 0)" % (sv, kv), cv} and all(e == {"1": 1} for e in p.values())
             ctx.check(ok, a, "term=composition*coeff", "net[idx] must accumulate substance.composition.get(key, 0) * coeff; found %s" % (U(ups[0].stmt) if ups else None), node=inner[0])
             ctx.check(not any(isinstance(x, (ast.If, ast.Continue, ast.Break)) for x in walk_shallow(outer[0])), a, "no-skips", "the violation loops skip entries", node=outer[0])
     init = [n for n in walk_shallow(fn) if isinstance(n, ast.Assign) and U(n.targets[0]) == "net"]
